@@ -93,6 +93,20 @@ def check_proofs(mod, rep: Report):
     for b in common.scan_forbidden(srcs):
         broken.append("forbidden construct: " + b)
         good = 0
+    if rep.tier == "thorough" and getattr(mod, "COQCHK", True):
+        ck = common.coqchk(props)
+        rep.coverage["coqchk"] = ck
+        if not ck["ok"]:
+            broken.append(f"coqchk did not accept {ck['module']}: {ck.get('tail', '')[-300:]}")
+        else:
+            for ax in ck["axioms"]:
+                name = ax.split()[0].split(":")[0]
+                short = name.split(".")[-1]
+                if not any(r.fullmatch(name) or r.fullmatch(short) for r in allowed) and not any(
+                    re.fullmatch(a, name) for a in getattr(mod, "COQCHK_LIBRARY_AXIOMS", [])):
+                    broken.append(f"coqchk reports an axiom outside the allow-lists: {ax}")
+            if ck["type_in_type"] or ck["unsafe_fix"] or ck["positivity"]:
+                broken.append(f"coqchk reports disabled kernel checks: {ck}")
     rep.coverage["axioms_seen"] = sorted(axioms_seen)
     rep.coverage["theorems"] = names
     return len(names), good, broken, cmd
